@@ -365,6 +365,14 @@ def composite_recipes(n):
         out.append(["low_rank_square", sign, ["leaf", "triangular_lower", n], 1,
                     ["leaf", "scaled_identity_pos", 1], True, False])
     if n >= 3:
+        # rank-2 updates: the capacitance matrix is a non-symmetric 2x2 matrix
+        for sign in (1, -1):
+            out.append(["low_rank_square", sign, ["leaf", "dense_square", n], 2,
+                        ["leaf", "dense_square", 2], True, True])
+            out.append(["low_rank_square", sign, ["leaf", "triangular_upper", n], 2,
+                        ["leaf", "triangular_lower", 2], False, False])
+        out.append(["low_rank_symmetric", 1, ["leaf", "dense_symmetric", n], 2,
+                    ["leaf", "diagonal", 2], True, True])
         out.append(["low_rank_pd", -1, ["leaf", "tri_factored_pd_lower", n], 2,
                     ["leaf", "dense_pd", 2], False, True])
         out.append(["low_rank_pd", 1, ["leaf", "eigendecomposed_pd", n], 2, None, True, True])
